@@ -34,13 +34,17 @@ def _nt(t):
 def perturb_parms(rng):
     p = copy.deepcopy(BASE_PARMS)
     k = rng.choice(['same', 'same', 'same', 'same', 'value', 'type', 'length', 'missing', 'extra', 'str', 'near-int', 'near-float',
-                    'flist', 'slist', 'bool', 'scalar-as-list', 'list-as-scalar'])
+                    'flist', 'slist', 'bool', 'scalar-as-list', 'list-as-scalar', 'flist-int', 'slist-short'])
     if k == 'value':
         p['a'] = 2
     elif k == 'flist':
         p['f'] = [0.5, 2.5]
     elif k == 'slist':
         p['g'] = ['x', 'yz']
+    elif k == 'flist-int':           # stored whole numbers, requested fractions with the same integer parts
+        p['f'] = [0, 1]
+    elif k == 'slist-short':         # stored strings that are prefixes of the requested ones
+        p['g'] = ['x', 'y']
     elif k == 'bool':
         p['h'] = False
     elif k == 'scalar-as-list':         # one value against a list of that value
